@@ -113,6 +113,7 @@ pub fn knobs_from_plan(plan: &Value) -> Knobs {
         yield_sites_pct: g("yield_pct"),
         yield_ppm: g("yield_ppm"),
         yield_long_ppm: g("yield_long_ppm"),
+        budget_ppm: g("budget_ppm"),
         yield_force: n["yield_force"].as_array().map(|a| a.iter().filter_map(|v| v.as_str().map(|s| s.to_string())).collect()).unwrap_or_default(),
         pipe: pipe_cfg_from(p).unwrap_or_else(|| {
             let _ = gp;
